@@ -51,16 +51,16 @@ def judge(tp, s):
 
 
 def route(tp, kind, s):
-    """NARROW match for F9: a double await of one process with a binary result, the debug panic at
+    """NARROW match for F9 (recorded for C06; here "F9c15"): a double await of one process with a binary result, the debug panic at
     the refcount check on process completion, and the leak visible to check_refcounts."""
-    if simlib.f16_shape(s):
-        return "F16"
+    if simlib.f71_shape(s):
+        return "F71c15"
     double = tp["name"] == "double_await" or re.search(r"!(\w+)( =\w+)?, !\1\b", str(tp["src"]))
     if double and "0x" in str(tp["src"]) and s.ok and kind in ("panic", "hang", "refcounts"):
         if all("executor.rs:1287" in p for p in s.panics) and s.panics:
-            return "F9"
+            return "F9c15"
         if kind == "refcounts" and all("reachable=false" in simlib.unparse(f) for f in s.oracle_failures("refcounts")):
-            return "F9"
+            return "F9c15"
     return None
 
 
@@ -74,7 +74,7 @@ def run(ctx):
     if not exe:
         return
     runner = SimRunner(ctx, exe)
-    nscen = ctx.n(170, 2000)
+    nscen = ctx.n(250, 2000)
     nsched = ctx.n(60, 500)
     scenarios = []
     sites = simlib.FAIL_SITES
